@@ -361,3 +361,28 @@ Qed.
 
 Print Assumptions submit_returns.
 Print Assumptions submit_leaves_caller_dicts.
+
+(* ------------------------------------------------------------------ *)
+(* the limits the dispatcher thread is started with (InteractiveStepExecutor.__init__, regenerated):
+   whatever the executor_kwargs dictionary held before - in particular a "max_cores" / "max_workers"
+   entry left there by an earlier executor built from the same user dictionary - the dispatcher
+   receives exactly the constructor's max_cores and max_workers *)
+From EL Require Import Gen.StepCtor.
+
+Lemma step_ctor_limits q self mc mw ek sp :
+  step_ctor q self mc mw (sdict ek) sp
+  = Ok (sdict (aset "max_workers" mw (aset "max_cores" mc (aset "spawner" sp (aset "future_queue" q ek))))).
+Proof. unfold step_ctor. rewrite !py_setitem_s. cbn [bind]. rewrite !py_setitem_s. cbn [bind].
+       rewrite !py_setitem_s. cbn [bind]. rewrite !py_setitem_s. reflexivity. Qed.
+
+Definition k_max_cores : string := "max_cores".
+Definition k_max_workers : string := "max_workers".
+
+Theorem step_ctor_hands_over_the_given_limits q self mc mw ek sp :
+  exists d, step_ctor q self mc mw (sdict ek) sp = Ok (sdict d)
+            /\ assoc k_max_cores d = Some mc /\ assoc k_max_workers d = Some mw.
+Proof.
+  unfold k_max_cores, k_max_workers. eexists. split; [apply step_ctor_limits|]. split.
+  - rewrite assoc_aset. cbn. rewrite assoc_aset. cbn. reflexivity.
+  - rewrite assoc_aset. cbn. reflexivity.
+Qed.
